@@ -111,6 +111,9 @@ def build_callable(program: dict, pool: Pool, keep: list) -> Any:
         for i, s in enumerate(sites):
             full = y if s.get("chain", True) else x
             inp = full[:1] if s.get("halve") else full
+            if s.get("cast32"):
+                # same function, same shape, ANOTHER dtype at this call site (double-precision programs only)
+                inp = inp.astype(jnp.float32)
             if s.get("const_arg") is not None:
                 # the call site passes a compile-time CONSTANT of the same shape/dtype as the data
                 # (only generated for programs with concrete shapes, so there is no branching on shapes here)
@@ -148,6 +151,8 @@ def build_callable(program: dict, pool: Pool, keep: list) -> Any:
                 r = obj(inp, **kw)
             else:
                 r = pool.inst[s["inst"]](inp, **kw)
+            if s.get("cast32"):
+                r = r.astype(full.dtype)
             if s.get("halve"):
                 r = r + jnp.zeros_like(full)  # broadcast (1, D) back to the full shape, no Python branching on shapes
             y = jnp.tanh(r) * 0.5 + 0.05 * (i + 1) + (0.0 if s.get("chain", True) else y)
@@ -180,7 +185,7 @@ def site_value_key(s: dict, pool: Pool) -> tuple:
         obj = _norm_spec(pool.desc[s["inst"]])
     kw = dict(_KW_DEFAULTS.get(s["target"], {}))
     kw.update(s.get("kw") or {})
-    return (s["target"], obj, cm.canon(kw), bool(s.get("halve")), bool(s.get("use_param")))  # (a constant argument is data, not identity: sharing across const/dynamic sites is legitimate)
+    return (s["target"], obj, cm.canon(kw), bool(s.get("halve")), bool(s.get("use_param")), bool(s.get("cast32")))  # (a constant argument is data, not identity: sharing across const/dynamic sites is legitimate)
 
 
 def _without_function_plugins():
@@ -598,7 +603,7 @@ def gen_history(seed: int, run: int, n_ops: int) -> list[dict]:
             n_sites = r.choice([1, 2, 2, 3, 3, 4, 5, 6])
             sites: list[dict] = []
             ids = sorted(live)
-            pure_fn_only = r.random() < 0.12
+            pure_fn_only = r.random() < 0.18
             for _ in range(n_sites):
                 v = r.random()
                 if pure_fn_only or v < 0.28:
@@ -648,6 +653,10 @@ def gen_history(seed: int, run: int, n_ops: int) -> list[dict]:
                 sites[r.randrange(len(sites))]["const_arg"] = r.choice([0.3, -0.7, 1.5])
             if pure_fn_only and r.random() < 0.5:
                 program["x64"] = True
+                # one or two call sites see float32 data while their siblings see float64
+                for q_ in r.sample(sites, min(len(sites), r.choice([1, 1, 2]))):
+                    if q_["target"] in ("fn_sin2", "fn_scale", "fn_shift", "fn_pick"):
+                        q_["cast32"] = True
             if any(q.get("use_param") for q in sites):
                 program["input_params"] = {"deterministic": True}
             if any(q["target"] == "fn_gate" for q in sites):
